@@ -60,6 +60,8 @@ def generate(seed, tier, k):
             op["strain"] = r.random() < 0.5
         if name == "rotation":
             op["angle"] = round(r.uniform(-180, 180), 3)
+            if r.random() < 0.5:  # angles that repeat within a history
+                op["angle"] = r.choice([0, 30, 45, 90, -90, 180, 30.0, 45.0])
             op["axis"] = r.randrange(3)
         if name == "strain1d":
             op["k"] = r.choice([0, 1, 2, -2, 0.5])
@@ -208,6 +210,18 @@ class Machine:
                 self.remember(got if isinstance(got, np.ndarray) else None)
             self.remember(plain if isinstance(plain, np.ndarray) else None)
             self.sigs.append(f"{name}:{op.get('out')}:{int(par)}:{op.get('mode')}")
+            if op["seed"] % 3 == 0 and isinstance(plain, np.ndarray) and plain.flags.writeable and plain.dtype == float and not any(np.shares_memory(plain, a) for a in operands):
+                # a returned array is the caller's: overwriting it must not change what the next
+                # (identical) call returns
+                keep = plain.copy()
+                plain[...] = -123.456
+                again = call(out=None, parallel=False)
+                self.log.count("variant:result-scribbled")
+                ok, rel = close_exact_twin(np.asarray(again), keep, rtol=1e-12, atol=1e-13 * (1 + float(np.abs(keep).max()) if keep.size else 1.0))
+                if not ok:
+                    self.V("call-history", f"{name}: the same call returns different values after the caller overwrote the earlier result (rel {rel:.2e})", site=f"{name}.result-aliasing")
+                self.unchanged(name, operands, digs, "repeat")
+                return again
             return plain
 
         T = lambda A, nt: items(np.broadcast_to(A, A.shape[:nt] + full), nt)
@@ -418,6 +432,23 @@ class Machine:
                 Kx = np.array([[0, -e[2], e[1]], [e[2], 0, -e[0]], [-e[1], e[0], 0]])
                 ref = np.eye(3) + np.sin(a) * Kx + (1 - np.cos(a)) * Kx @ Kx
             self.check_ref(name, R, ref, site=f"rotation_matrix[dim={dim},axis={ax}]")
+            # the returned matrix is the caller's (scaled / mirrored in place by callers); later
+            # calls with the same angle still return the rotation
+            if R.flags.writeable:
+                R *= -2.5
+                self.log.count("variant:result-scribbled")
+            for dim2 in (dim, 5 - dim):
+                R2 = fm.rotation_matrix(op["angle"], dim=dim2, axis=ax if dim2 == 3 else 0)
+                c, s_ = np.cos(a), np.sin(a)
+                if dim2 == 2:
+                    ref2 = np.array([[c, -s_], [s_, c]])
+                else:
+                    e = np.eye(3)[ax]
+                    Kx = np.array([[0, -e[2], e[1]], [e[2], 0, -e[0]], [-e[1], e[0], 0]])
+                    ref2 = np.eye(3) + s_ * Kx + (1 - c) * Kx @ Kx
+                ok, rel = close_exact_twin(R2, ref2, rtol=1e-10, atol=1e-11)
+                if not ok:
+                    self.V("call-history", f"rotation_matrix({op['angle']}, dim={dim2}) differs from the definition after an earlier result was modified in place (rel {rel:.2e})", site=f"rotation_matrix.result-aliasing")
             self.sigs.append(name)
         elif name == "strain1d":
             lam = np.abs(tensor(rng, (d,), b, bcA)) + 0.3
